@@ -74,6 +74,57 @@ def _qr_stub_thin1(env, fail_first=False):
     return stub, state
 
 
+# the solvers divide by max(||Pi||_F, 1e-30): the exact value of that float literal, squared (never 10**-60: see DESIGN 7)
+_PI_FLOOR2 = max(Fraction(1e-30), Fraction(1, 10 ** 30)) ** 2
+
+
+class _ConcDraws:
+    """concrete side: numpy.random.randn of the real library is wrapped for the duration of the call; the draws are RECORDED (so that the
+    proxy of the returned X can be recomputed from the very sketch the solver used) and take the values of a replayed counterexample
+    ('rnd<k>' names) where the model has them, the real generator's values otherwise"""
+    def __init__(self, env, fixed=None, real_axis_only=False):
+        self.env, self.fixed, self.real_axis_only, self.draws, self.n = env, fixed, real_axis_only, [], 0
+
+    def __enter__(self):
+        import numpy as np
+        self._orig = np.random.randn
+        me = self
+
+        def randn(*shape):
+            a = me._orig(*shape)
+            comp = len(me.draws) % 4
+            for i in range(a.size):
+                if me.real_axis_only and comp != 0:
+                    a.flat[i] = 0.0
+                    continue
+                me.n += 1
+                if me.fixed is not None:
+                    a.flat[i] = float(Fraction(me.fixed[(me.n * 7 + i) % len(me.fixed)]))
+                elif ('rnd%d' % me.n) in me.env.vals:
+                    a.flat[i] = me.env._v('rnd%d' % me.n)
+            me.draws.append(a.copy())
+            return a
+        np.random.randn = randn
+        return self
+
+    def __exit__(self, *exc):
+        import numpy as np
+        np.random.randn = self._orig
+        return False
+
+
+def _conc_proxy_clause(env, draws, A, X, res, n, k):
+    """||Pi - X A Pi||_F / ||Pi||_F recomputed from the recorded test sketch (the first four draws)"""
+    Pi = [[[float(draws[c][i, j]) for c in range(4)] for j in range(k)] for i in range(n)]
+    An, Xn = cm.as_nested(env, A), cm.as_nested(env, X)
+    proxy2 = _f2(_sub(Pi, cm_matmul_nested(Xn, cm_matmul_nested(An, Pi))))
+    pi2 = _f2(Pi)
+    if pi2 > 1e-60:
+        got, want = float(res[-1]), (proxy2 / pi2) ** 0.5
+        env.holds('last reported proxy is the proxy of the returned X (unless the test sketch is numerically zero)',
+                  abs(got - want) <= 1e-6 * max(got, want) + 1e-12)
+
+
 def rsp_column(env, m, n, iters, fail_first=False, solver_kind='qr'):
     Sv = env.R.solver
     A = env.qarr('a', (m, n), 'real')
@@ -83,8 +134,12 @@ def rsp_column(env, m, n, iters, fail_first=False, solver_kind='qr'):
         import numpy as np
         np.random.seed(7)
         solver = Sv.RandomizedSketchProjectPseudoinverse(block_size=1, max_iter=iters, tol=tol, test_sketch_size=1, column_solver=solver_kind)
-        X, info = solver.compute_column_variant(A)
+        with _ConcDraws(env) as cd:
+            X, info = solver.compute_column_variant(A)
         env.holds('converged flag = (last residual <= tol)', info['converged'] == (bool(info['residual_norms']) and info['residual_norms'][-1] <= tol))
+        env.holds('iterations = number of recorded residuals', info['iterations'] == len(info['residual_norms']) and len(info['residual_norms']) <= iters)
+        if info['residual_norms'] and len(cd.draws) >= 4:
+            _conc_proxy_clause(env, cd.draws, A, X, info['residual_norms'], n, 1)
         return
     draws = []
     from symex import shim, scalar as S
@@ -115,7 +170,7 @@ def rsp_column(env, m, n, iters, fail_first=False, solver_kind='qr'):
         proxy2 = _f2(_sub(Pi, cm_matmul_nested(Xn, cm_matmul_nested(An, Pi))))
         pi2 = _f2(Pi)
         env.holds('last reported proxy is the proxy of the returned X (unless the test sketch is numerically zero)',
-                  (pi2 < Fraction(1, 10 ** 60)) | (res[-1] ** 2 * pi2 == proxy2))
+                  (pi2 <= _PI_FLOOR2) | (res[-1] ** 2 * pi2 == proxy2))
     env.holds('converged flag = (last proxy <= tol)', bool(info['converged']) == (bool(res) and bool(res[-1] <= tol)))
     if iters == 1 and not fail_first and res:
         # sketched constraint after one step: X+ A Omega = Omega up to the 1e-30 regulariser of the triangular solve
@@ -131,7 +186,10 @@ def rsp_column(env, m, n, iters, fail_first=False, solver_kind='qr'):
                [[[v * (y2 + reg) for v in e] for e in r] for r in lhs], [[[-reg * v for v in e] for e in r] for r in rhs])
 
 
-def hybrid(env, m, n, p, cycles=1, diag=False):
+_FIXED = ['3/2', '-1/2', '2', '1/3', '-5/4', '1', '-2/3', '7/5', '1/2', '-3', '4/3']
+
+
+def hybrid(env, m, n, p, cycles=1, diag=False, conc_draws=False):
     """HybridRSPNewtonSchulz.compute: the last reported proxy is the proxy of the returned X and the converged flag is computed from it"""
     Sv = env.R.solver
     A = env.qarr('a', (m, n), (lambda idx: 'real' if idx[0] == idx[1] else 'zero') if diag else 'real')
@@ -140,12 +198,17 @@ def hybrid(env, m, n, p, cycles=1, diag=False):
     if not env.symbolic:
         import numpy as np
         np.random.seed(3)
-        X, info = Sv.HybridRSPNewtonSchulz(r=1, p=p, T=1, tol=tol, max_iter=cycles).compute(A)
+        with _ConcDraws(env, fixed=_FIXED if conc_draws else None, real_axis_only=diag) as cd:
+            X, info = Sv.HybridRSPNewtonSchulz(r=1, p=p, T=1, tol=tol, max_iter=cycles).compute(A)
         res = info['residual_norms']
+        if res and len(cd.draws) >= 4:
+            _conc_proxy_clause(env, cd.draws, A, X, res, n, min(6, n))
         env.holds('converged flag = (last proxy <= tol)', info['converged'] == (bool(res) and res[-1] <= tol))
         An, Xn = cm.as_nested(env, A), cm.as_nested(env, X)
         true2 = _f2(_sub(cm.eye_nested(n), cm_matmul_nested(Xn, An)))
-        if info['converged']:
+        if info['converged'] and not conc_draws and not any(str(k).startswith('rnd') for k in env.vals):
+            # only for sketches drawn by the real generator: for a sketch chosen by the solver (a replayed model) a small proxy
+            # says nothing about the true residual (probabilistic statement, outside the claim)
             env.le('converged only if ||X A - I||_F / sqrt(n) <= 10 tol', true2, (10 * tol) ** 2 * n, slack=1e-9)
         return
     draws = []
@@ -158,6 +221,10 @@ def hybrid(env, m, n, p, cycles=1, diag=False):
         for i in range(a.size):
             if diag and comp != 0:
                 a.flat[i] = S.K(Fraction(0))     # stated bound of the diagonal cell: real-axis sketches
+            elif conc_draws:
+                # stated bound of the 'fixed sketches' cell: the draws are fixed non-trivial rationals, A stays symbolic
+                shim.NP._ndraw += 1
+                a.flat[i] = S.K(Fraction(_FIXED[(shim.NP._ndraw * 7 + i) % len(_FIXED)]))
             else:
                 shim.NP._ndraw += 1
                 a.flat[i] = S.CTX.newvar('rnd%d' % shim.NP._ndraw)
@@ -178,7 +245,7 @@ def hybrid(env, m, n, p, cycles=1, diag=False):
     proxy2 = _f2(_sub(Pi, cm_matmul_nested(Xn, cm_matmul_nested(An, Pi))))
     pi2 = _f2(Pi)
     env.holds('last reported proxy is the proxy of the returned X (unless the test sketch is numerically zero)',
-              (pi2 < Fraction(1, 10 ** 60)) | (res[-1] ** 2 * pi2 == proxy2))
+              (pi2 <= _PI_FLOOR2) | (res[-1] ** 2 * pi2 == proxy2))
     env.holds('converged flag = (last proxy <= tol)', bool(info['converged']) == bool(res[-1] <= tol))
     env.holds('info echoes the configuration', info['r'] == 1 and info['p'] == p and info['T'] == 1)
 
@@ -230,6 +297,10 @@ def cells():
                         bounds='A %dx%d real-axis symbolic, block size 1, all sketch draws symbolic' % (m, n), **big))
     out.append(Cell('hybrid[2x2 diagonal,p=2]', 'c13:hybrid', dict(m=2, n=2, p=2, diag=True), tier='thorough', twin=False,
                     bounds='A = diag(a, d) real symbolic, r = 1, T = 1, one cycle, sketch draws symbolic on the real axis', **big))
+    for (m, n), p, dg, tier in [((2, 2), 2, True, 'quick'), ((2, 2), 3, True, 'thorough'), ((2, 2), 2, False, 'quick'), ((3, 2), 2, True, 'thorough')]:
+        out.append(Cell('hybrid[%dx%d %s,p=%d,fixed sketches]' % (m, n, 'diagonal' if dg else 'real-axis', p), 'c13:hybrid', dict(m=m, n=n, p=p, diag=dg, conc_draws=True),
+                        tier=tier, twin=False, bounds='A %dx%d %s symbolic, r = 1, T = 1, one cycle, the sketch draws FIXED to non-trivial rationals '
+                        '(so that the sketch step leaves I - X A != 0 before the hyperpower step)' % (m, n, 'diagonal' if dg else 'real-axis'), **big))
     for (m, n), p, tier in [((2, 1), 2, 'quick'), ((2, 2), 2, 'thorough'), ((3, 2), 3, 'thorough')]:
         out.append(Cell('hybrid[%dx%d,p=%d]' % (m, n, p), 'c13:hybrid', dict(m=m, n=n, p=p), tier=tier, twin=False,
                         bounds='A %dx%d real-axis symbolic, r = 1, T = 1, one cycle, all draws symbolic' % (m, n), **big))
